@@ -66,4 +66,28 @@ PROPS = {
         "level_text": "For every explored position IsPseudoLegal agreed with generator membership on all 32768 encodings (1.3e8 pairs quick / 3.3e9 thorough), and no UCI move string put a non-generated move on the board. Per position the enumeration is complete; over positions it is exploration.",
         "level_note": "trusted: nothing beyond the engine's own generator as the definition and the real uci.Driver; out-of-alphabet strings may alias a genuine move through parseUCIMove's byte arithmetic, which the statement allows",
     },
+    "C09": {
+        "pkg": "./c09",
+        "stages": [{"name": "main", "timeout_q": 1500, "timeout_t": 7200}],
+        "rule": "cases = valid positions with normalised e.p. state, split by in-check / not-in-check: IsCheckmate() (only when in check) and IsStalemate() (only when not in check) vs (reference legal-move count == 0). "
+                "Sources: exhaustive KQK/KRK/KBK/KNK/KPK, strided 4-men classes incl. every valid e.p. target, adversarial constructions (slider/knight/pawn checks with capturers, interposers by piece/push/double push, pins, boxed-in kings, e.p. geometry), "
+                "dense and sparse random placements, and quiescence-shaped descents (random noisy-move sequences from playout positions, from the ends of PVs reported by real searches, optionally after a null move). "
+                "distinct_nontrivial = distinct keys among positions that are in check or have <= 3 legal moves. " + VALID,
+        "assumptions": [REF],
+        "technique": "runtime monitor: reference-model oracle (legal-move count) for the two fast terminal tests, exhaustive 3-men enumeration + adversarial generators + quiescence-shaped descents",
+        "level_text": "On every explored position IsCheckmate/IsStalemate agreed with the absence of legal moves (~3e6 quick / ~3e7 thorough positions; all 3-men placements; tens of thousands of mates and stalemates; thousands of e.p. cases on both sides of the split). Held on the executions observed.",
+        "level_note": "trusted: harness/ref legal move generator; each function is only called on its side of the in-check split as its contract says",
+    },
+    "C10": {
+        "pkg": "./c10",
+        "stages": [{"name": "main", "timeout_q": 1500, "timeout_t": 7200}],
+        "rule": "cases = plies of game histories: after every move Board.Threefold() is compared with min(3, number of earlier positions of the history incl. the current one with the same (placement, side, rights, normalised e.p.) key). "
+                "Histories are oscillating shuffles (each side retracts its previous move with probability 0.35-0.95, interleaved with quiet or rich moves: knight/king/rook oscillations, lost castling rights, transient e.p. rights) "
+                "of up to 600 plies and biased playouts, from StartPos(), corpus FENs, generated positions and pre-double-push positions; on a sample the same history goes through the real UCI driver "
+                "(`position ... moves ...; go depth 1 nodes 2000`) where bestmove 0000 must appear iff the root is final (third occurrence, clock >= 100 or no legal move). distinct_nontrivial = distinct (start, move list) histories. " + VALID,
+        "assumptions": [REF, "position identity is ref.Key(): placement, side to move, castling rights, e.p. capturability"],
+        "technique": "runtime monitor: online checker of a history specification (occurrence-count map keyed by reference position identity) along shuffle-biased game histories, plus the UCI path",
+        "level_text": "At every ply of every explored history (~1e6 quick / ~2e7 thorough checks, hundreds of thousands on repeated positions incl. 3rd and later occurrences, placements recurring with different rights/e.p.) Threefold() equalled the true recurrence count capped at 3. Held on the executions observed.",
+        "level_note": "trusted: harness/ref for move legality and e.p. normalisation; depends on C02's successor convention (a successor mismatch is tagged in the signature)",
+    },
 }
